@@ -239,10 +239,11 @@ theorem save_eq (o : Obj) (os : OStream) :
           | none => pure { obj := { o1 with hdr := some h0, segs := segs1, curPos := savePos0 o1 h0 }, os := os, ok := false }
           | some (lay, done) => pure (saveTail o1 os h0 segs1 lay done)) := by
   unfold save
+  simp only [save_phoff_toNat, save_shoff0_toNat]
   cases o.hdr with
-  | none => rfl
+  | none => simp only [save_entry_refused_none, if_true]
   | some h =>
-    simp only []
+    simp only [save_entry_refused_some]
     split
     · rfl
     · apply bind_congr; intro segs1
@@ -2151,7 +2152,7 @@ theorem calcSegAlign_fix {secs : List SecBuf} {g : Seg}
     simp only [List.foldlM_cons, hs, pure_bind]
     have : BitVec.ult g.align s.addrAlign = false := by
       simp only [BitVec.ult, decide_eq_false_iff_not]; omega
-    rw [this]
+    rw [save_csa_raise_eq, this]
     simp only [Bool.false_eq_true, if_false]
     exact ih (fun i hi => h i (List.mem_cons_of_mem _ hi))
 
@@ -2215,8 +2216,8 @@ theorem orderFront_go_id (n : Nat) (fuel i ns : Nat) (wl : Array Seg) (hn : n = 
           have := Array.mem_of_getElem? hs
           simpa using this
         have := h si hm
-        have hc : (i != ns && si.offsetSet && si.offset == 0) = false := by
-          rw [Bool.and_assoc, this, Bool.and_false]
+        have hc : save_gos_front (BitVec.ofNat 64 i) (BitVec.ofNat 64 ns) si.offsetSet si.offset = false :=
+          save_gos_front_false _ _ _ _ this
         rw [hc]
         simp only [Bool.false_eq_true, if_false]
         exact ih _ _
